@@ -86,7 +86,7 @@ Lemma inv_step : forall sg fs0 refs ds s0, init_state sg fs0 refs ds = POk s0 ->
 Proof.
   intros sg fs0 refs ds s0 Hinit ops s1 o s (Hc & Hd & Hfs & Hdt & Hn & HT & Hrf & Hi & Hif & Hir) H.
   assert (Hq : forall o', (fs0 / (qprod (since_rb ops) * qfac o'))%Qc = (fs s1 / qfac o')%Qc).
-  { intro o'. rewrite Hfs. field. split; [apply qfac_nz|apply qprod_nz]. }
+  { intro o'. rewrite Hfs. field. repeat split; auto using qfac_nz, qprod_nz. }
   assert (Hq1 : (fs0 / (qprod (since_rb ops) * 1))%Qc = fs s1).
   { rewrite Hfs. field. apply qprod_nz. }
   destruct o; cbn [step] in H.
@@ -95,7 +95,7 @@ Proof.
     destruct (mk_data sg (ref s1) (map (Dec q kw) (cur s1))) as [vs|e] eqn:Hm; [|discriminate].
     inversion H; subst s; clear H. unfold Inv. cbn [cur data fs dt Ndats Ts ref init init_fs init_ref].
     rewrite since_rb_snoc, apply_ops_snoc, qprod_snoc, <- Hc. cbn [app1 fst snd].
-    rewrite Hrf in Hm. repeat split; try assumption; try reflexivity. exact (Hq (Decimate q kw)).
+    rewrite Hrf in Hm. repeat split; try assumption; try reflexivity. symmetry; exact (Hq (Decimate q kw)).
   - (* detrend *)
     destruct (kw_ok det_names kw); [|discriminate].
     destruct (mk_data sg (ref s1) (map (Det kw) (cur s1))) as [vs|e] eqn:Hm; [|discriminate].
@@ -128,10 +128,10 @@ Proof.
 Qed.
 
 (* ---------------------------------------------------------------- totality on documented keywords ------------ *)
-Lemma step_total : forall pc sg fs0 refs ds s1, mk_data sg refs (cur s1) = POk (data s1) -> ref s1 = refs ->
-  init_state sg (init_fs s1) (init_ref s1) (init s1) = POk ds -> forall o, op_documented o -> exists s, step pc sg s1 o = POk s.
+Lemma step_total : forall pc sg refs s1 sI, mk_data sg refs (cur s1) = POk (data s1) -> ref s1 = refs ->
+  init_state sg (init_fs s1) (init_ref s1) (init s1) = POk sI -> forall o, op_documented o -> exists s, step pc sg s1 o = POk s.
 Proof.
-  intros pc sg fs0 refs ds s1 Hd Hrf Hinit o Ho. destruct o; cbn [step op_documented] in *.
+  intros pc sg refs s1 sI Hd Hrf Hinit o Ho. destruct o; cbn [step op_documented] in *.
   - rewrite Ho. destruct (mk_data_map_ok sg (Dec q kw) (fun t => eq_refl) refs _ _ Hd) as [vs Hv].
     rewrite Hrf, Hv. eexists; reflexivity.
   - rewrite Ho. destruct (mk_data_map_ok sg (Det kw) (fun t => eq_refl) refs _ _ Hd) as [vs Hv].
@@ -150,7 +150,7 @@ Proof.
   - apply Forall_app in HF. destruct HF as [HF1 HF2]. inversion HF2 as [|? ? Ho _]; subst.
     destruct (IH HF1) as [s1 H1]. rewrite run_snoc, H1. cbn [bindp].
     destruct (inv_run _ _ _ _ _ Hinit ops s1 H1) as (_ & Hd & _ & _ & _ & _ & Hrf & Hi & Hif & Hir).
-    apply (step_total false sg fs0 refs s0 s1 Hd Hrf); [rewrite Hi, Hif, Hir; exact Hinit|exact Ho].
+    apply (step_total false sg refs s1 s0 Hd Hrf); [rewrite Hi, Hif, Hir; exact Hinit|exact Ho].
 Qed.
 
 Lemma kw_unknown_typeerr : forall pc sg s,
@@ -281,4 +281,44 @@ Proof.
   split; [vm_compute; reflexivity|].
   split; [vm_compute; reflexivity|].
   intro H. apply (f_equal (map (fun x : Qc => Qnum (this x)))) in H. vm_compute in H. discriminate H.
+Qed.
+
+(* ---------------------------------------------------------------- soundness of the comparison used by the printers *)
+Lemma zs_eqb_eq : forall x y, zs_eqb x y = true -> x = y.
+Proof.
+  induction x as [|u x IH]; destruct y as [|v y]; cbn [zs_eqb]; intro H; try discriminate; [reflexivity|].
+  apply andb_true_iff in H. destruct H as [H1 H2]. apply Z.eqb_eq in H1. rewrite H1, (IH y H2). reflexivity.
+Qed.
+Lemma kwval_eqb_eq : forall a b, kwval_eqb a b = true -> a = b.
+Proof.
+  intros x y. destruct x, y; cbn [kwval_eqb]; intro H; try discriminate; try reflexivity.
+  - apply Z.eqb_eq in H. rewrite H. reflexivity.
+  - apply eqb_prop in H. rewrite H. reflexivity.
+  - apply String.eqb_eq in H. rewrite H. reflexivity.
+  - apply zs_eqb_eq in H. rewrite H. reflexivity.
+Qed.
+Lemma kw_eqb_eq : forall a b, kw_eqb a b = true -> a = b.
+Proof.
+  induction a as [|[k v] a IH]; destruct b as [|[k' v'] b]; cbn [kw_eqb]; intro H; try discriminate; [reflexivity|].
+  apply andb_true_iff in H. destruct H as [H H3]. apply andb_true_iff in H. destruct H as [H1 H2].
+  apply String.eqb_eq in H1. apply kwval_eqb_eq in H2. rewrite H1, H2, (IH b H3). reflexivity.
+Qed.
+Lemma wn_eqb_eq : forall a b, wn_eqb a b = true -> a = b.
+Proof.
+  intros x y. destruct x, y; cbn [wn_eqb]; intro H; try discriminate.
+  - apply Qc_eq_bool_correct in H. rewrite H. reflexivity.
+  - apply andb_true_iff in H. destruct H as [H1 H2]. apply Qc_eq_bool_correct in H1. apply Qc_eq_bool_correct in H2. rewrite H1, H2. reflexivity.
+Qed.
+Lemma term_eqb_eq : forall a b, term_eqb a b = true -> a = b.
+Proof.
+  induction a as [k n c|q kw d IH|kw d IH|f w o bt d IH]; intro y; destruct y; cbn [term_eqb]; intro H; try discriminate.
+  - apply andb_true_iff in H. destruct H as [H H3]. apply andb_true_iff in H. destruct H as [H1 H2].
+    apply Nat.eqb_eq in H1. apply Nat.eqb_eq in H2. apply Nat.eqb_eq in H3. subst. reflexivity.
+  - apply andb_true_iff in H. destruct H as [H H3]. apply andb_true_iff in H. destruct H as [H1 H2].
+    apply Pos.eqb_eq in H1. apply kw_eqb_eq in H2. rewrite H1, H2, (IH _ H3). reflexivity.
+  - apply andb_true_iff in H. destruct H as [H1 H2]. apply kw_eqb_eq in H1. rewrite H1, (IH _ H2). reflexivity.
+  - apply andb_true_iff in H. destruct H as [H H5]. apply andb_true_iff in H. destruct H as [H H4].
+    apply andb_true_iff in H. destruct H as [H H3]. apply andb_true_iff in H. destruct H as [H1 H2].
+    apply Qc_eq_bool_correct in H1. apply wn_eqb_eq in H2. apply Nat.eqb_eq in H3. apply String.eqb_eq in H4.
+    rewrite H1, H2, H3, H4, (IH _ H5). reflexivity.
 Qed.
